@@ -201,7 +201,18 @@ def run_scenario(spec: dict) -> dict:
             S.mark("save_raise")
             raise Injected(f"save#{k}")
         p = orig_save(self)
-        S.mark("save_e", Path(p).name, tc.is_paused())
+        info = {}
+        try:  # read the written state back (no yield points here): what is in the buffer, the agent's counter, the clock
+            import pickle
+            buf = list(pickle.load(open(Path(p) / "data" / "buf" / "buffer.pkl", "rb")))
+            info = {"steps_now": state["steps"], "buf_len": len(buf), "buf_last": buf[-1] if buf else 0,
+                    "buf_ok": buf == list(range(max(1, state["steps"] - len(buf) + 1), state["steps"] + 1)),
+                    "agent_steps": int((Path(p) / "interaction" / "agent" / "steps").read_text()),
+                    "trains_now": state["trains"], "trainer_trains": int((Path(p) / "trainers" / "t" / "trains").read_text()),
+                    "clock_saved": pickle.load(open(Path(p) / "time.pkl", "rb"))["scaled_anchor_time"], "clock_now": tc.time()}
+        except Exception as e:  # noqa: BLE001
+            info = {"readback_error": f"{type(e).__name__}: {e}"}
+        S.mark("save_e", Path(p).name, tc.is_paused(), info)
         return p
 
     StateStore.save_state = logged_save
